@@ -442,6 +442,18 @@ func (env *Env) bin(x *EBin) Val {
 		}
 		return boolVal(sx("not", sx("=", l.T, r.T)))
 	case "<", "<=", ">", ">=":
+		if l.S == "Str" && r.S == "Str" {
+			switch x.Op {
+			case "<":
+				return boolVal(sx("str_lt", l.T, r.T))
+			case ">":
+				return boolVal(sx("str_lt", r.T, l.T))
+			case "<=":
+				return boolVal(sx("not", sx("str_lt", r.T, l.T)))
+			default:
+				return boolVal(sx("not", sx("str_lt", l.T, r.T)))
+			}
+		}
 		if fp {
 			return boolVal(sx(map[string]string{"<": "fp.lt", "<=": "fp.leq", ">": "fp.gt", ">=": "fp.geq"}[x.Op], l.T, r.T))
 		}
@@ -548,6 +560,25 @@ func (env *Env) call(x *ECall) Val {
 		return mathInt(sx("imin", arg(0).T, arg(1).T))
 	case "max":
 		return mathInt(sx("imax", arg(0).T, arg(1).T))
+	case "unbox", "hastype":
+		// unbox(x, T): the struct value of type T stored in interface value x; hastype(x, T): x holds a value of type T
+		if len(x.Args) != 2 {
+			cfail("%s(x, Type)", x.Fun)
+		}
+		xv := arg(0)
+		tn, ok := x.Args[1].(*EIdent)
+		if !ok {
+			cfail("%s: second argument must be a type name", x.Fun)
+		}
+		ty, srt := env.lookupType(tn.Name)
+		if ty == nil {
+			cfail("%s: unknown type %s", x.Fun, tn.Name)
+		}
+		if x.Fun == "hastype" {
+			return boolVal(sx("and", sx("not", sx("=", xv.T, "0")), sx("=", sx("dyntype", xv.T), vc.typeTag(ty))))
+		}
+		f := vc.declareFun("unbox_"+sanitize(srt), []string{"Int"}, srt)
+		return Val{T: sx(f, xv.T), S: srt, Ty: ty}
 	case "anc":
 		// anc(x, q): q is x or one of its ancestors along the declared acyclic parent link
 		xv, qv := arg(0), arg(1)
